@@ -2,23 +2,25 @@
 
    Times are Z: nanoseconds on time.Time's own scale, 0 = Go's zero time (`ts.IsZero()`), so an
    entry that was never written and an entry written at instant 0 look the same to isValid,
-   exactly as in the code.  Users are numbers.  The map `data` is an association list, newest
+   exactly as in the code.  Users are byte strings (the map key is the Go string: "alice" and
+   "Alice" are two entries).  The map `data` is an association list, newest
    binding first (a Go map write replaces the binding; `lookup` returns the newest one).  A nil
    *Cache is `None`.  The clock is an input: every op carries the reading that `get` (through
    isValid) and the reading that `put` obtain from `c.clock.Now()`. *)
 From Coq Require Import ZArith NArith List Bool.
+From KM Require Import Base.Bytes.
 Import ListNotations.
 Open Scope Z_scope.
 
 Record entry := { e_admin : bool; e_ts : Z }.            (* cacheEntry{IsAdmin, Ts} *)
 Definition zero_entry : entry := {| e_admin := false; e_ts := 0 |}.
 
-Definition cache := list (N * entry).                    (* Cache.data *)
+Definition cache := list (bs * entry).                    (* Cache.data *)
 
-Fixpoint lookup (d : cache) (u : N) : entry :=
+Fixpoint lookup (d : cache) (u : bs) : entry :=
   match d with
   | [] => zero_entry
-  | (k, e) :: r => if N.eqb k u then e else lookup r u
+  | (k, e) :: r => if bs_eqb k u then e else lookup r u
   end.
 
 (* time.Time.Sub: the difference saturates at the range of Duration (int64 nanoseconds) *)
@@ -33,14 +35,14 @@ Definition is_valid (maxd now ts : Z) : bool :=
   if ts =? 0 then false else sat_sub now ts <? maxd.
 
 (* func (c *Cache) get(user) (isAdmin, valid) *)
-Definition get (maxd : Z) (c : option cache) (now : Z) (u : N) : bool * bool :=
+Definition get (maxd : Z) (c : option cache) (now : Z) (u : bs) : bool * bool :=
   match c with
   | None => (false, false)
   | Some d => let e := lookup d u in (e_admin e, is_valid maxd now (e_ts e))
   end.
 
 (* func (c *Cache) put(user, isAdmin) *)
-Definition put (c : option cache) (now : Z) (u : N) (a : bool) : option cache :=
+Definition put (c : option cache) (now : Z) (u : bs) (a : bool) : option cache :=
   match c with
   | None => None
   | Some d => Some ((u, {| e_admin := a; e_ts := now |}) :: d)
@@ -48,8 +50,8 @@ Definition put (c : option cache) (now : Z) (u : N) (a : bool) : option cache :=
 
 (* the package's own API, op by op (driven directly in keymasterd/admincache) *)
 Inductive cop :=
-| CGet (now : Z) (u : N)
-| CPut (now : Z) (u : N) (a : bool).
+| CGet (now : Z) (u : bs)
+| CPut (now : Z) (u : bs) (a : bool).
 Inductive cout := OGet (isadmin valid : bool) | OPut.
 
 Definition cstep (maxd : Z) (c : option cache) (o : cop) : option cache * cout :=
@@ -70,7 +72,7 @@ Fixpoint crun (maxd : Z) (c : option cache) (l : list cop) : list cout :=
 Record query := {
   q_t : Z;                 (* clock reading inside Get *)
   q_tp : Z;                (* clock reading inside Put (only read when Put happens) *)
-  q_user : N;
+  q_user : bs;
   q_raw : option bool }.
 
 Definition is_admin_user (maxd : Z) (c : option cache) (q : query) : option cache * bool :=
@@ -99,12 +101,65 @@ Definition five_minutes : Z := 300 * 1000000000.
 
 Example ex_stale_on_error :
   verdicts five_minutes (Some [])
-    [ {| q_t := 10; q_tp := 10; q_user := 1%N; q_raw := Some true |};
-      {| q_t := 10 + five_minutes; q_tp := 10 + five_minutes; q_user := 1%N; q_raw := None |};
-      {| q_t := 11 + five_minutes; q_tp := 11 + five_minutes; q_user := 1%N; q_raw := Some false |};
-      {| q_t := 10 + 2 * five_minutes; q_tp := 10 + 2 * five_minutes; q_user := 1%N; q_raw := Some false |} ]
+    [ {| q_t := 10; q_tp := 10; q_user := [97%N]; q_raw := Some true |};
+      {| q_t := 10 + five_minutes; q_tp := 10 + five_minutes; q_user := [97%N]; q_raw := None |};
+      {| q_t := 11 + five_minutes; q_tp := 11 + five_minutes; q_user := [97%N]; q_raw := Some false |};
+      {| q_t := 10 + 2 * five_minutes; q_tp := 10 + 2 * five_minutes; q_user := [97%N]; q_raw := Some false |} ]
   = [true; true; true; false].
 Proof. vm_compute. reflexivity. Qed.
+
+(* ---- the role questions the server memoises, as ONE state machine over the shared cache.
+   app.go IsAdminUser(u) and roleRequestingCert.go isAutomationAdmin(u) both go through the
+   five-minute memo: isAutomationAdmin first asks IsAdminUser(u) (memoised, may fill the cache)
+   and, if that says no, looks u up in Config.Base.AutomationAdmins (never memoised).
+   One op: which question, about whom, the clock readings, what _IsAdminUser would return now
+   (q_raw: a real administrator evaluation by configured name or group, or an error), and whether
+   the user is on the automation administrators' list. *)
+Inductive rkind := KAdmin | KAutoAdmin.
+Record rquery := { rq_kind : rkind; rq_q : query; rq_listed : bool }.
+
+(* the answer handed to the caller, and the administrator verdict obtained on the way *)
+Definition role_step (maxd : Z) (c : option cache) (r : rquery) : option cache * (bool * bool) :=
+  let '(c', adm) := is_admin_user maxd c (rq_q r) in
+  (c', (adm, match rq_kind r with KAdmin => adm | KAutoAdmin => adm || rq_listed r end)).
+
+Record robs := { ro_q : rquery; ro_adm : bool; ro_ans : bool }.
+
+Definition rstep (maxd : Z) (st : option cache * list robs) (r : rquery) : option cache * list robs :=
+  let '(c', (adm, ans)) := role_step maxd (fst st) r in
+  (c', {| ro_q := r; ro_adm := adm; ro_ans := ans |} :: snd st).
+
+(* newest first *)
+Definition rrun (maxd : Z) (c0 : option cache) (rs : list rquery) : option cache * list robs :=
+  fold_left (rstep maxd) rs (c0, []).
+
+Definition ranswers (maxd : Z) (c0 : option cache) (rs : list rquery) : list bool :=
+  rev (map ro_ans (snd (rrun maxd c0 rs))).
+
+(* the administrator evaluation inside a role query, as an observation of the memo *)
+Definition admin_obs (o : robs) : obs := {| o_q := rq_q (ro_q o); o_v := ro_adm o |}.
+
+(* For contrast (never the server's code): ONE memo shared by both questions and keyed by the
+   user name only — whatever the last lookup about u concluded is handed to the next caller,
+   whichever question that caller asks. *)
+Definition role_step_shared (maxd : Z) (c : option cache) (r : rquery) : option cache * (bool * bool) :=
+  let q := rq_q r in
+  let '(cached, valid) := get maxd c (q_t q) (q_user q) in
+  if valid then (c, (cached, cached))
+  else
+    let fresh := match rq_kind r with
+                 | KAdmin => q_raw q
+                 | KAutoAdmin => match q_raw q with Some a => Some (a || rq_listed r) | None => None end
+                 end in
+    match fresh with
+    | Some v => (put c (q_tp q) (q_user q) v, (v, v))
+    | None => (put c (q_tp q) (q_user q) cached, (cached, cached))
+    end.
+Fixpoint ranswers_shared (maxd : Z) (c : option cache) (rs : list rquery) : list bool :=
+  match rs with
+  | [] => []
+  | r :: rest => let '(c', (_, ans)) := role_step_shared maxd c r in ans :: ranswers_shared maxd c' rest
+  end.
 
 (* comparison helpers for the correspondence case files *)
 Definition cout_eqb (a b : cout) : bool :=
